@@ -25,6 +25,15 @@ var SimPermute func(site string, n int) []int
 // returned at "pre" is returned by the store instead of committing.
 var SimStoreHook func(path, kind, phase string) error
 
+// SimProbe, when set, receives reach-measurement probes (no effect on behaviour).
+var SimProbe func(name string, v int)
+
+func simProbe(name string, v int) {
+	if SimProbe != nil {
+		SimProbe(name, v)
+	}
+}
+
 func simEventBody(b *EventBody) {
 	if SimNow != nil {
 		b.Timestamp = SimNow(b.Creator)
